@@ -7,13 +7,14 @@
 (* (or crash placement) among the external calls the operation makes.      *)
 (***************************************************************************)
 EXTENDS Integers, Sequences, FiniteSets, TLC
-CONSTANTS Layouts, WlSets, Strategies, Counts, Reqs, Deltas, Modes
+CONSTANTS Layouts, WlSets, Strategies, Counts, Reqs, Deltas, Modes, Includes
 VARIABLES sc, q
 
-N(name, pod, kind) == [name |-> name, pod |-> pod, kind |-> kind]
+N(name, pod, kind) == [name |-> name, pod |-> pod, kind |-> kind, down |-> FALSE]
 W(node, req) == [node |-> node, req |-> req, app |-> "a"]
 Layout(k) == CASE k = "two-plain" -> <<N("n1", "p1", "plain2"), N("n2", "p1", "plain2")>>
                [] k = "numa-plain" -> <<N("n1", "p1", "numa4"), N("n2", "p1", "plain2")>>
+               [] k = "one-down" -> <<[N("n1", "p1", "plain2") EXCEPT !.down = TRUE], N("n2", "p2", "plain2")>>
                [] k = "two-pods" -> <<N("n1", "p1", "plain2"), N("n2", "p1", "plain4"), N("n3", "p2", "plain2")>>
 WlSet(k) == CASE k = "none" -> <<>>
               [] k = "one-bound" -> <<W("n1", "b")>>
@@ -23,7 +24,7 @@ Op(kind, strategy, count, nodes, pod, req, targets, force, delta) ==
     [kind |-> kind, strategy |-> strategy, count |-> count, limit |-> 0, nodes |-> nodes, pod |-> pod, req |-> req,
      targets |-> targets, force |-> force, delta |-> delta, app |-> "a", stdin |-> FALSE]
 Ops(nw) ==
-    {Op("create", s, c, inc, "p1", r, <<>>, FALSE, "") : s \in Strategies, c \in Counts, r \in Reqs, inc \in {<<>>, <<"n1">>, <<"n2", "n1">>}}
+    {Op("create", s, c, inc, "p1", r, <<>>, FALSE, "") : s \in Strategies, c \in Counts, r \in Reqs, inc \in Includes}
     \cup (IF nw >= 1 THEN {Op("remove", "", 0, <<>>, "p1", "", <<0>>, f, "") : f \in BOOLEAN}
                           \cup {Op("dissociate", "", 0, <<>>, "p1", "", <<0>>, FALSE, "")}
                           \cup {Op("realloc", "", 0, <<>>, "p1", "", <<0>>, FALSE, d) : d \in Deltas}
@@ -41,6 +42,7 @@ Valid(s) == /\ \A i \in 1..Len(s.op.targets) : s.op.targets[i] < Len(s.wls)
             /\ (s.op.kind \in {"remove", "dissociate", "realloc", "replace"} => Len(s.wls) > 0)
             /\ (s.mode = "crash" => s.op.kind = "create")
             /\ (Len(s.op.targets) = 2 => Len(s.wls) >= 2)
+            /\ (s.nodes = Layout("one-down") => (s.wls = <<>> /\ s.op.kind \in {"removepod", "removenode", "setnode", "addnode"} /\ s.mode = "fault"))
 Init == sc \in {s \in Scenarios : Valid(s)} /\ q = 0
 Next == q = 0 /\ q' = 1 /\ UNCHANGED sc
 Spec == Init /\ [][Next]_<<sc, q>>
